@@ -1183,6 +1183,22 @@ class Ev:
                 raise Unsupported("map over a function value that is not modelled: %r" % (f,))
             if m == "collect" and not args:
                 return Coll(recv)
+            if m in ("all", "any") and len(args) == 1 and isinstance(args[0], Clo):
+                f = args[0]
+                env2 = dict(f.env)
+                self.bind(f.params[0], recv.fn(Poly.atom("q%d" % len(self.loops))), env2)
+                self.loops.append(("q", vkey(recv.src)))
+                try:
+                    body = self.collapse(self.eval(f.body, env2, depth))
+                finally:
+                    self.loops.pop()
+                return Sym("forall" if m == "all" else "exists", vkey(recv.src), vkey(body))
+            if m == "zip" and len(args) == 1:
+                o = args[0]
+                if isinstance(o, Coll):
+                    o = o.seq
+                if isinstance(o, Seq):
+                    return Seq(Sym("zip", vkey(recv.src), vkey(o.src)), lambda idx, a=recv.fn, b=o.fn: Tup([a(idx), b(idx)]))
         if m in ERASE_METHODS and not args:
             return recv
         if isinstance(recv, Sym) and recv.tag and recv.tag[0] == "ctor" and recv.tag[1] in ("Some", "None", "Ok", "Err"):
@@ -1195,6 +1211,17 @@ class Ev:
                 return self.collapse(self.eval(args[0].body, dict(args[0].env), depth))
             if recv.tag[1] == "None" and m in ("unwrap", "expect"):
                 return Sym("diverges", "unwrap on None")
+            if m == "map_or" and len(args) == 2:
+                if recv.tag[1] == "None":
+                    return args[0]
+                if recv.tag[1] == "Some" and isinstance(args[1], Clo):
+                    env2 = dict(args[1].env)
+                    self.bind(args[1].params[0], recv.tag[2], env2)
+                    return self.collapse(self.eval(args[1].body, env2, depth))
+            if m == "is_some" and not args:
+                return Sym("bool", "true" if recv.tag[1] == "Some" else "false")
+            if m == "is_none" and not args:
+                return Sym("bool", "true" if recv.tag[1] == "None" else "false")
         if any(isinstance(a, Rec) for a in args) and not isinstance(recv, Rec) and self.facts.fn(d) is not None:
             return self.apply_fn(d, [recv] + args, depth)
         if isinstance(recv, Poly):
